@@ -1,6 +1,6 @@
 """C18 - results reflect the object's current contents, not earlier calls (E2: operation-history explorer).
 
-Every sequence of operations up to depth d over a 20-operation alphabet (accessor calls, in-place edits, watershed
+Every sequence of operations up to depth d over a 22-operation alphabet (accessor calls, in-place edits, watershed
 calls on other shapes / other objects, a reader call) is executed on freshly built objects in a freshly forked child
 (so no hidden state leaks between histories); afterwards an observation battery is compared with the same battery
 computed in a FRESH INTERPRETER on a freshly constructed object with the same contents.
@@ -26,7 +26,7 @@ DIR1 = np.arange(8) * 45.0
 DIR2 = np.arange(8) * 22.5 + 10.0  # same size, other spacing: the bin width changes
 OPS = ["hs", "tp", "dd", "smooth", "crsd", "stats_unknown", "set_efth", "set_ds_dir", "set_da_dir", "set_freq",
        "ws_shapeA", "ws_shapeB", "other_object", "reader", "efth_values_inplace", "coords_dir", "coords_freq", "da_values_inplace",
-       "observe_all", "ws_shapeT"]
+       "observe_all", "ws_shapeT", "ws_empty", "reader_edit"]
 EDITS = {"set_efth": 0, "set_ds_dir": 1, "set_da_dir": 2, "set_freq": 3, "efth_values_inplace": 0, "coords_dir": 1, "coords_freq": 3, "da_values_inplace": 4}
 
 
@@ -106,6 +106,17 @@ def apply_op(op, ds, da, env):
         o.to_dataset().spec.tp().values
     elif op == "observe_all":
         battery(ds, da)   # every function that is observed at the end is also exercised as an earlier operation (memoisation anywhere)
+    elif op == "ws_empty":
+        # a watershed call on an empty selection (no frequency in the band): raises on every tree; must leave nothing behind
+        try:
+            da.sel(freq=slice(0.9, 1.0)).spec.partition.ptm3(parts=2).values
+        except Exception:  # noqa
+            pass
+    elif op == "reader_edit":
+        from wavespectra import read_swan
+        d = read_swan(os.path.join(common.repo_root(), "tests", "sample_files", "swanfile.spec"))
+        d["efth"] = d.efth * 2.0            # the caller edits what the reader returned
+        d["dir"] = (d["dir"] + 90.0) % 360
     elif op == "reader":
         from wavespectra import read_swan
         d = read_swan(os.path.join(common.repo_root(), "tests", "sample_files", "swanfile.spec"))
@@ -162,6 +173,11 @@ def battery(ds, da):
     put("da.spec.dm", da.spec.dm())
     put("da.spec.smooth", da.spec.smooth(3, 3))
     put("da.spec.partition.ptm3", da.spec.partition.ptm3(parts=2))
+    if not light or True:
+        from wavespectra import read_swan
+        fresh = read_swan(os.path.join(common.repo_root(), "tests", "sample_files", "swanfile.spec"))
+        put("read_swan(sample).hs", fresh.spec.hs())
+        put("read_swan(sample).dir", fresh["dir"])
     return obs
 
 
@@ -244,7 +260,7 @@ def classify_prefix(hist):
     for op in hist:
         if op in EDITS:
             kinds.add(op + ("-after-call" if called else ""))
-        elif op in ("ws_shapeA", "ws_shapeB", "ws_shapeT", "other_object", "reader"):
+        elif op in ("ws_shapeA", "ws_shapeB", "ws_shapeT", "ws_empty", "other_object", "reader", "reader_edit"):
             kinds.add("other-" + ("watershed" if op.startswith("ws") else op))
         else:
             called = True
@@ -287,7 +303,7 @@ def replay(case):
     return vs
 
 
-REDUCED = ["observe_all", "smooth", "crsd", "ws_shapeT", "other_object"] + sorted(EDITS)
+REDUCED = ["observe_all", "crsd", "ws_shapeT", "ws_empty", "reader_edit"] + sorted(EDITS)
 
 
 def histories(depth, tier):
@@ -308,7 +324,7 @@ def run(rep, tier, seed, parts=None):
     common.load_wavespectra()
     os.environ["C18_BATTERY"] = "light" if tier == "quick" else "full"
     depth = 3 if tier == "quick" else 4
-    rep.rule = ("all operation sequences up to depth %d over the 20-operation alphabet %s (quick: full alphabet to depth 2, depth 3 over a reduced 13-operation "
+    rep.rule = ("all operation sequences up to depth %d over the 22-operation alphabet %s (quick: full alphabet to depth 2, depth 3 over a reduced 13-operation "
                 "alphabet with at least one edit, 17-observation battery; thorough: full alphabet to depth 3, reduced alphabet with an edit at depth 4, 28-observation battery); each history runs on freshly built objects in a freshly "
                 "forked child and its 28-observation battery is compared with a fresh interpreter's battery on a freshly constructed "
                 "object of the same contents. A state is (content, accessor/memo/global-table signature) after a history; transitions = "
